@@ -273,7 +273,17 @@ func GenConfDoc(rng *rand.Rand, mcast4, mcast6 []string) *ConfDoc {
 				badEntry = inj
 			}
 			if inj == "listen-and-interface" {
-				sb.WriteString("  listen: '%ve0'\n  interface: ve0\n")
+				// the alias key counts as used whatever its value looks like (a name, an empty string, a list)
+				lv := []string{"'%ve0'", "['%ve0']", "'0.0.0.0'", "['%ve0', '%vf0']"}[rng.Intn(4)]
+				if v6 {
+					lv = []string{"'%ve0'", "['%ve0']", "'[::]'", "['[ff02::1:2%ve0]']"}[rng.Intn(4)]
+				}
+				iv := []string{"ve0", "ve0", "lo", "''", "\"\"", "[ve0]", "[]", "0"}[rng.Intn(8)]
+				if rng.Intn(2) == 0 {
+					fmt.Fprintf(&sb, "  listen: %s\n  interface: %s\n", lv, iv)
+				} else {
+					fmt.Fprintf(&sb, "  interface: %s\n  listen: %s\n", iv, lv)
+				}
 				return
 			}
 			switch k := rng.Intn(5); {
